@@ -89,6 +89,9 @@ def run_history(case):
         x = let(M, domain=objs)
         qs = [an(entity(xi := let(M, domain=objs), xi.a >= 2)) for _ in range(3)]      # two rows each
         blockq = an(entity(let(M, domain=objs)))
+        # the(...) queries with exactly one, no and several solutions
+        thes = {'one': the(entity(t1 := let(M, domain=objs), t1.a >= 3)), 'none': the(entity(t0 := let(M, domain=objs), t0.a >= 4)),
+                'many': the(entity(t2 := let(M, domain=objs), t2.a >= 2))}
     SymbolicExpression._symbolic_expression_stack_.clear()
     cms, its, out = [], {}, []
     for op in case['ops']:
@@ -113,6 +116,12 @@ def run_history(case):
                             cm.__exit__(KeyError, e, e.__traceback__)
                         except KeyError:
                             pass
+            elif k == 'the':
+                from entity_query_language.failures import MultipleSolutionFound, NoSolutionFound
+                try:
+                    thes[op[1]].evaluate()
+                except (MultipleSolutionFound, NoSolutionFound):
+                    pass
             elif k == 'create':
                 its[op[1]] = qs[op[1]].evaluate()
             elif k == 'next':
